@@ -24,6 +24,7 @@ type Program struct {
 	allTypesPkgs []*types.Package
 	typeByKey    map[string]types.Type
 	funcsByKey   map[string]*ssa.Function
+	instances    map[*ssa.Function][]*ssa.Function // generic function -> its instantiations
 	purePats     []string
 	contractFiles map[string]string // pkg path -> file used
 	loadErrs     []string
@@ -76,6 +77,12 @@ func loadProgram(repo, verif string, patterns []string) (*Program, error) {
 	for f := range ssautil.AllFunctions(prog) {
 		if f.Pkg == nil && f.Object() == nil && f.Parent() == nil {
 			continue
+		}
+		if o := f.Origin(); o != nil && o != f && len(f.Blocks) > 0 {
+			if p.instances == nil {
+				p.instances = map[*ssa.Function][]*ssa.Function{}
+			}
+			p.instances[o] = append(p.instances[o], f)
 		}
 		key, _, _ := fnIDs(f)
 		if key != "" {
